@@ -512,7 +512,7 @@ func (e *Engine) loopClauses(fr *Frame, head *ssa.BasicBlock) (invs, decs []*Cla
 	}
 	ord := e.loops(fr.fn).ordinal[head]
 	for _, cl := range c.Clauses {
-		if cl.Loop == ord {
+		if cl.Loop == ord && cl.Broken == "" {
 			switch cl.Kind {
 			case "invariant":
 				invs = append(invs, cl)
